@@ -173,4 +173,4 @@ Inductive breaches (S : schema) : site -> tref -> tdkey -> typedef -> Prop :=
 (* every member type of every link of a chain has the type P assigns *)
 Definition members_ok (P : site -> tref -> yangtype -> Prop) (lks : list (site * tref)) (mss : list (list yangtype))
   : Prop :=
-  Forall2 (fun l ms => Forall2 (P (fst l) (snd l)) (t_members (snd l)) ms) lks mss.
+  Forall2 (fun l ms => Forall2 (fun u yu => P (fst l) u yu) (t_members (snd l)) ms) lks mss.
